@@ -478,8 +478,8 @@ class Prop:
                  'the sample schemas: Example() and the OpenAPI conversion must succeed, the output must be a well-formed Schema Object, and the example - and, one '
                  'scalar at a time, every value of a pool that the leaf\'s own rules accept (judged by the exact C01 oracle) - must be valid against it, with the '
                  'registered types as components; scalar leaves with bounds are also compared with the Coq model of the translation',
-            trusted=['Coq 8.16.1 kernel', 'model coq/Model/OasSem.v (translation of bound rules + JSON Schema semantics of the keywords) tied by correspondence on the emitted keywords',
+            trusted=['Coq 8.16.1 kernel', 'models coq/Model/OasSem.v, OasLeaf.v, OasTree.v (the converter for scalar nodes and for arrays/objects without references + JSON Schema / OpenAPI 3.0 semantics of the keywords) tied by correspondence on the whole emitted Schema Object',
                      'independent judge: python jsonschema 4.26 Draft4Validator with exact numbers (int/Decimal), OpenAPI 3.0 `nullable` lowered to anyOf, formats not enforced',
                      'C01 oracle for "the schema\'s own rules still accept"', 'extraction, driver, harness'],
             assumptions=['variations are generated for leaves whose rules the C01 oracle covers (not regex, formats, or)', 'a key shortcut @t is instantiated with one string key'],
-            explanation='translation-soundness theorem for the numeric keywords; validation of examples and accepted variations by an independent JSON Schema validator')
+            explanation='translation-soundness theorems (scalar nodes in full; trees without references: every accepted value, the example included, is valid); validation of examples and accepted variations by an independent JSON Schema validator')
